@@ -225,7 +225,8 @@ def finish(prop, tier, seed, obs, errs, t0, info, replay_fn=None):
     stats = [o for o in obs if "_stats" in o]
     notapp = [o for o in obs if "_notapplicable" in o]
     obs = [o for o in obs if "_stats" not in o and "_notapplicable" not in o]
-    failed = [o for o in obs if o["status"] in (FAILED, UNDECIDED)]
+    failed = [o for o in obs if o["status"] == FAILED]
+    undecided = [o for o in obs if o["status"] == UNDECIDED]
     crashed = [o for o in obs if o["status"] == ERROR]
     violations, known = [], []
     lines = []
@@ -337,6 +338,7 @@ def finish(prop, tier, seed, obs, errs, t0, info, replay_fn=None):
         bounded_obligations=nob - len(unb),
         bounded_discharged=sum(1 for o in obs if o["bounded"] and o["status"] == PROVED),
         failed=len(failed), known_finding_obligations=len(known), violations=len(violations),
+        undecided=len(undecided), undecided_obligations=[dict(id=o["id"], detail=o["detail"][:200]) for o in undecided[:50]],
         failed_obligations=[dict(id=o["id"], detail=o["detail"][:200]) for o in violations[:200]],
         by_engine=by_engine, functions_under_contract=fns,
         checker_cmd=info.get("checker_cmd", "./check %s --tier %s" % (prop, tier)),
@@ -357,6 +359,9 @@ def finish(prop, tier, seed, obs, errs, t0, info, replay_fn=None):
     with open(os.path.join(EVID, "%s.json" % prop), "w") as f:
         json.dump(jsonable(ev), f, indent=1)
 
+    if undecided:
+        lines.append("UNDECIDED: %d obligation(s) on paths whose feasibility the solver could not confirm (not verdicts; listed in the evidence), e.g. %s" % (
+            len(undecided), undecided[0]["id"]))
     for o in notapp:
         lines.append("NOTE: engine V does not apply to %s on this tree (%s); its bounded contract checks still ran" % (
             o["_notapplicable"], o["reason"][:160]))
